@@ -238,9 +238,9 @@ func ipv4NetFromReversed(arpa string) (pref netip.Prefix, err error) {
 		if err != nil {
 			// Don't wrap the error, since it's informative enough as is.
 			return netip.Prefix{}, err
-		} else if octet64 != 0 && addr[octetIdx] == '0' {
+		} else if len(addr)-octetIdx > 1 && addr[octetIdx] == '0' {
 			// Octets of an ARPA domain name shouldn't contain leading zero
-			// except an octet itself equals zero.
+			// except an octet itself is the single digit zero.
 			//
 			// See RFC 1035 Section 3.5.
 			//
